@@ -2,8 +2,11 @@
 import itertools, hashlib, re
 from ..harness import *
 from ..player import *
-from .. import front
+from .. import front, native
 from .c04 import BINOPS, POSTFIX
+
+# functions whose behaviour in a subset is decided semantically by an obligation of this check (so a cfg-dependent body there is not left open)
+SEMANTICALLY_COVERED = ['f64_to_i64', 'as From<f64>>::from', 'as From<i64>>::from', 'operator_category.rs']
 
 FEATS = ['eval_complex', 'eval_decimal', 'eval_f64', 'eval_i64', 'eval_number']
 
@@ -61,9 +64,14 @@ class FeatureOb(Obligation):
         try:
             prog = ctx.prog(self.oc, self.feats)
         except front.BuildError as ex:
+            # the MIR dump of this subset failed: confirm with the repository's own toolchain that the subset does not compile
             res['obligations'] = 1
-            res['confirmed'].append(dict(input='cargo build --no-default-features --features ' + ','.join(self.feats), native='build failed: ' + str(ex)[-300:], what='feature subset does not compile', profile='dev',
-                                         obligation=self.name, key='features|build|' + '+'.join(self.feats), request=None))
+            okb, msg = native.cargo_build_subset(ctx.build, self.feats)
+            res['replayed'] = 1
+            if okb:
+                res['inconclusive'].append('%s: the MIR dump failed but cargo build succeeds: %s' % (self.name, str(ex)[-300:])); return res
+            res['confirmed'].append(dict(input='cargo build --no-default-features --features ' + ','.join(self.feats), native='BUILD-FAILED ' + msg[:300], what='feature subset does not compile', profile='dev',
+                                         obligation=self.name, key='features|build|' + '+'.join(self.feats), request=['BUILD', ','.join(self.feats)]))
             return res
         full = ctx.prog(self.oc)
         # exported functions: exactly the selected evaluators are compiled
@@ -81,17 +89,27 @@ class FeatureOb(Obligation):
             res['obligations'] += 1
             res['confirmed'].append(dict(input='--features ' + ','.join(self.feats), native='link failed: ' + str(ex)[-300:], what='public API of the subset does not link', profile='dev', obligation=self.name,
                                          key='features|link|' + '+'.join(self.feats), request=None))
-        # every body of each selected evaluator is the same code as in the default build
-        for f in self.feats:
-            ev = f[5:]
-            a = eval_fns(prog, ev) if len(self.feats) > 1 else eval_fns(prog, ev)
-            b = eval_fns(full, ev)
-            common = set(a) & set(b)
-            res['obligations'] += 1
-            diff = [k for k in common if a[k] != b[k]]
-            if len(common) < 10: res['inconclusive'].append('%s: could not match the bodies of eval_%s between the builds (%d matched)' % (self.name, ev, len(common)))
-            elif diff: res['inconclusive'].append('%s: bodies differ from the default build: %s' % (self.name, diff[:4]))
+        # every compiled body of this subset is the same code as a body of the same (path-trimmed) name in the default build
+        fullfp = {}
+        for n, fl in full.fns.items(): fullfp.setdefault(n, set()).add(body_fingerprint(fl[0]))
+        fullnames = list(full.fns)
+        res['obligations'] += 1
+        differ = []; matched = 0
+        for n, fl in prog.fns.items():
+            cands = [m for m in fullnames if m == n or m.endswith('::' + n)]
+            fp = body_fingerprint(fl[0])
+            if not cands: differ.append(n + ' (only in this subset)'); continue
+            if any(fp in fullfp[m] for m in cands): matched += 1
+            else: differ.append(n)
+        res['matched_bodies'] = matched
+        if matched < 10: res['inconclusive'].append('%s: could not match the bodies between the builds (%d matched)' % (self.name, matched))
+        elif differ:
+            # cfg-dependent code: identical behaviour is then shown only as far as the semantic obligations of this subset go (Number::from, precedence templates)
+            res['cfg_dependent_bodies'] = differ[:8]
+            if not all(any(k in d for k in SEMANTICALLY_COVERED) for d in differ):
+                res['inconclusive'].append('%s: bodies differ from the default build and are not covered by a semantic obligation of this subset: %s' % (self.name, differ[:4]))
             else: res['discharged'] += 1
+        else: res['discharged'] += 1
         res['samples'] = [dict(obligation=self.name, features=self.feats, mir_functions=len(prog.fns), digest=prog.digest[:12])]
         res['fns'] = sorted(prog.fns)[:50]
         return res
@@ -101,6 +119,15 @@ def obligations(ctx):
     obs = []
     for feats in subsets(ctx):
         obs.append(FeatureOb(feats))
+        if 'eval_number' in feats and feats != FEATS:
+            # Number::from (the only code of eval_number that could name another feature's dependency) from this subset's MIR, all 2^64 doubles
+            from ..harness import FnCall, Leaf
+            from ..reference import semantics as sem
+            v = Leaf('f64', 'v')
+            ob = FnCall('C17', 'Number::from(f64)-under/' + '+'.join(x[5:] for x in feats), 'number', 'resolve:<number::Number as From<f64>>::from', [v],
+                        lambda vals: sem.number_from_f64_ref(vals[0]), lambda cz, v=v: ['FROMF', v.render(cz)], oc=True, limits={'timeout_ms': 120000})
+            ob.features = feats
+            obs.append(ob)
         # precedence order under this feature set: X op Y op Z over every operator of each selected evaluator, from the MIR of this build
         for f in feats:
             ev = f[5:]
